@@ -22,6 +22,7 @@ RunInit0 == /\ status = [s \in Stages |-> "W"] /\ gerr = [g \in Graphs |-> FALSE
             /\ pt = [s \in Stages |-> "start"] /\ role = [s \in Stages |-> "none"]
             /\ done = Zs /\ rfail = [s \in Stages |-> FALSE] /\ ran = [s \in Stages |-> {}]
             /\ upst = [c \in Ctxs |-> "no"] /\ dn = [c \in Ctxs |-> "no"]
+            /\ canc = "no" /\ ctxc = FALSE /\ quiet = FALSE
 TInit == /\ TLCSet(1, 1) /\ l = 1
          /\ deps = [s \in Stages |-> {}] /\ cls = [s \in Stages |-> "OK"] /\ ncmd = [s \in Stages |-> 1] /\ failAt = [s \in Stages |-> 1]
          /\ nvar = [s \in Stages |-> 1] /\ ctx = Zs /\ hb = [s \in Stages |-> "none"] /\ ha = [s \in Stages |-> "none"]
@@ -40,8 +41,14 @@ TReset == /\ Is("cfg") /\ (IF l = 1 THEN TRUE ELSE Log[l - 1].e = "end") /\ Ev.n
           /\ pt' = [s \in Stages |-> "start"] /\ role' = [s \in Stages |-> "none"]
           /\ done' = Zs /\ rfail' = [s \in Stages |-> FALSE] /\ ran' = [s \in Stages |-> {}]
           /\ upst' = [c \in Ctxs |-> "no"] /\ dn' = [c \in Ctxs |-> "no"]
+          /\ canc' = "no" /\ ctxc' = FALSE /\ quiet' = FALSE
           /\ Consume
-TStLoop == /\ Is("st") /\ gpc[Ev.s] = "none" /\ Visit(Ev.s) /\ status'[Ev.s] = Ev.v /\ Consume
+TStLoop == /\ Is("st") /\ gpc[Ev.s] = "none" /\ (Visit(Ev.s) \/ VisitCErr(Ev.s)) /\ status'[Ev.s] = Ev.v /\ Consume
+\* the loop's own Scheduler.Cancel: the call, the moment the runner's context is cancelled, the return
+TCancel == /\ Is("cancel") /\ CancelCall /\ Consume
+TCSet == /\ Is("cset") /\ CancelSet /\ Consume
+TCExit == /\ Is("cexit") /\ CancelDone /\ Consume
+TRefused == /\ Is("refused") /\ RunRefused(Ev.s) /\ Consume
 TStDupCancel == /\ Is("st") /\ Ev.v = "C" /\ status[Ev.s] = "C" /\ Consume /\ UNCHANGED vars
 \* two nested loops over one included pipeline may both find a condition false and both store Skipped
 TStDupSkip == /\ Is("st") /\ Ev.v = "S" /\ status[Ev.s] = "S" /\ gr[Ev.s] = 1 /\ cls[Ev.s] = "CFALSE"
@@ -60,6 +67,9 @@ TCmdEnd == /\ Is("CmdEnd") /\ Ev.role \in {"tb", "cmd", "ta"} /\ role[Ev.s] = Ev
                                     [] Ev.role = "cmd" -> FailsNow(Ev.s)                                \* (tolerated or not)
                                     [] OTHER -> rfail'[Ev.s])
            /\ Consume
+\* a job that ends with an error once the runner's context has been cancelled was interrupted
+TCmdKilled == /\ Is("CmdEnd") /\ Ev.role \in {"tb", "cmd", "ta"} /\ role[Ev.s] = Ev.role /\ Ev.err # "nil"
+              /\ CmdKilled(Ev.s) /\ Consume
 \* a job of a context (up, before, after): executed on behalf of some run that is at that point
 \* (the log names the context, not the run)
 TCtxStart == /\ Is("CmdStart") /\ Ev.role \in {"up", "cb", "ca"}
@@ -70,21 +80,23 @@ TCtxEnd == /\ Is("CmdEnd") /\ Ev.role \in {"up", "cb", "ca"}
            /\ ((Ev.err # "nil") = (Ev.role = "up" /\ upFails[Ev.c])) /\ Consume
 TDownStart == /\ Is("CmdStart") /\ Ev.role = "down" /\ DownStart(Ev.c) /\ Consume
 TDownEnd == /\ Is("CmdEnd") /\ Ev.role = "down" /\ DownEnd(Ev.c) /\ Consume
-TDone == /\ Is("done") /\ loop /\ (\A s \in Stages : gr[s] = 0 => status[s] \notin {"W", "R"} /\ gpc[s] \in {"none", "fin"})
+TDone == /\ Is("done") /\ loop /\ canc \in {"no", "done"}
+         /\ (\A s \in Stages : gr[s] = 0 => status[s] # "R" /\ (canc = "no" => status[s] # "W") /\ gpc[s] \in {"none", "fin"})
          /\ gerr[0] = Ev.err /\ (\A s \in Stages : status[s] = Ev.final[s])
          /\ loop' = FALSE /\ Consume
-         /\ UNCHANGED <<cfgv, status, gerr, want, twice, nl, by, gpc, rpc, pt, role, done, rfail, ran, upst, dn>>
+         /\ UNCHANGED <<cfgv, cvars, status, gerr, want, twice, nl, by, gpc, rpc, pt, role, done, rfail, ran, upst, dn>>
 \* what the user is told when the process exits: a failed run exits non-zero and prints no summary; a
 \* run that succeeded lists every stage of the pipeline that was asked for, once, with its final status
 \* (completed or skipped: nothing else can be left), and no stage of an included pipeline
 TSummary == /\ Is("summary") /\ ~loop /\ Ev.exitfail = gerr[0]
             /\ Ev.printed \in (IF gerr[0] THEN {"no"} ELSE {"yes", "unknown"})    \* (unknown: no header recognised)
-            /\ (Ev.printed = "yes" => \A s \in Stages : Ev.lines[s] \in {"?", IF gr[s] = 0 THEN status[s] ELSE "-"})
-            /\ (\A s \in Stages : gr[s] = 0 /\ ~gerr[0] => status[s] \in {"D", "S"})
+            /\ (Ev.printed = "yes" => \A s \in Stages : Ev.lines[s] \in {"?", IF gr[s] = 0 THEN status[s] ELSE "-"}
+                                                                        \cup (IF status[s] = "W" THEN {"-"} ELSE {}))   \* (left Waiting by a cancelled run)
+            /\ (\A s \in Stages : gr[s] = 0 /\ ~gerr[0] /\ ~ctxc => status[s] \in {"D", "S"})
             /\ Consume /\ UNCHANGED vars
 \* the process has exited: every context that was used has been taken down
 TEnd == /\ Is("end") /\ AllOver /\ Consume /\ UNCHANGED vars
-TNext == TReset \/ TStLoop \/ TStDupCancel \/ TStDupSkip \/ TStPublish \/ TEnter \/ TRet \/ TNRet \/ TRunEnter \/ TRunExit \/ TCmdStart \/ TCmdEnd
+TNext == TCancel \/ TCSet \/ TCExit \/ TRefused \/ TCmdKilled \/ TReset \/ TStLoop \/ TStDupCancel \/ TStDupSkip \/ TStPublish \/ TEnter \/ TRet \/ TNRet \/ TRunEnter \/ TRunExit \/ TCmdStart \/ TCmdEnd
          \/ TCtxStart \/ TCtxEnd \/ TDownStart \/ TDownEnd \/ TDone \/ TSummary \/ TEnd
 HW == TLCSet(1, IF TLCGet(1) < l THEN l ELSE TLCGet(1))
 Accepted == TLCGet(1) = Len(Log) + 1
